@@ -119,5 +119,10 @@ def run(check, ctx):
     from . import c_ocb
     c_ocb.ocb_tables(check, ctx, rule="G-c", groups=("guards",))
     c_ec.memory_tables(check, ctx)
+    # the big-number layer: every load and store of the word / Montgomery / modular-exponentiation rows is bounds-checked
+    # by the evaluator (operands of 1 byte up to several words, scratch and scramble arrays with short tails)
+    from . import c_mont, c_modexp
+    c_mont.mont_tables(check, ctx, rule="M")
+    c_modexp.modexp_tables(check, ctx, rule="M")
     check.undecided.append("a whole-program bounds proof: index arithmetic inside the bignum, Montgomery and EC "
                            "code, scratch-space sizing, intrinsics; lengths >= 2^32 on loops with unsigned counters")
